@@ -43,7 +43,11 @@ func execute(sc c12body.Scenario, ch *explore.Chooser, accessPoints bool, stmtPo
 	// executions must be independent: empty the library's package-level registries and caches
 	zzvsync.ResetAll()
 	reg.Init()
-	reg.Again()
+	if sc.NoLibraryRegistration {
+		zzvsync.ResetAll() // reg.Init may just have registered (first execution of the process): empty again
+	} else {
+		reg.Again()
+	}
 	c12body.SetDeterministic()
 	st := sc.Setup(env)
 	zzvsync.ResetPools()
@@ -199,7 +203,7 @@ func tasks(tier string) []task {
 		// the construction scenarios once more with EVERY statement of the library as a scheduling point (one
 		// preemption): publish-before-initialise and check-then-act windows inside unsynchronised code
 		switch id := strings.Fields(sc.Name)[0]; {
-		case id == "S1" || id == "S2" || id == "S8" || id == "S9" || id == "S6c" || id == "S3" || strings.HasPrefix(id, "S11") || tier == "thorough":
+		case id == "S1" || id == "S2" || id == "S8" || id == "S9" || id == "S6c" || id == "S3" || strings.HasPrefix(id, "S11") || id == "S12" || id == "S13" || tier == "thorough":
 			ts = append(ts, task{sc.Name + " [statement points]", func(c *fw.Ctx) { runScenario(c, sc, 1, true, cap, true) }})
 		}
 	}
@@ -278,7 +282,7 @@ func init() {
 			if tier == "thorough" {
 				b, b2 = 3, 2
 			}
-			return fmt.Sprintf("the library is rebuilt with its sync import replaced by a cooperative-scheduler shim and with generated Access hooks (before every statement touching a package-level variable, at entry of every pointer-receiver method, classified read/write); 15 scenarios of three threads (one of two) that collide on every piece of shared state (Register ∥ Codec+decode ×2; RegisterSchema ∥ SchemaForType ∥ NewEncoderFor; Register(T1) ∥ Register(T2) ∥ build with a final both-in-effect check; shared-codec decode ×3 with pooled banks, closing at once or keeping banks open; shared-codec encode ×3 incl. map iteration; ReadFile ×2 + a third thread closing banks handed over through a channel; timestamp decode ×3 with the same / different / X,Y,Y not-yet-cached zone offsets; a registered builder that re-enters the codec builder ∥ Register of another type (RWMutex modelled with writer preference: readers queue behind an announced writer); ReadFile abandoned from a callback that closed its bank, then shared-codec decode ×2 (two threads); three independent encoders of one compression codec writing two blocks each (deflate, snappy); a mix) are explored over ALL schedules with at most %d preemptions where every Lock/Unlock/RLock/RUnlock/Pool.Get/Pool.Put/channel operation is a scheduling point and every Pool.Get answer a choice, and again with every Access hook as an additional scheduling point with at most %d preemptions, and — for the construction scenarios, the shared-codec decode and the X,Y,Y zone scenario (all scenarios in thorough) — once more with EVERY statement of the library a scheduling point (generated statement hooks, one preemption), so that publish-before-initialise and check-then-act windows inside unsynchronised code are interleaved; sync.Once and sync.Map are shimmed as well (scheduling points, happens-before edges, state dropped between executions), package-level variables are restored before every execution to their values after package initialisation; per schedule: vector-clock happens-before check of all hooked accesses (lock release→acquire, pool put→get, channel send→recv edges), deadlock detection, and comparison of every thread's observation with what a sequential order allows; auxiliary: the same bodies free-running on 16 goroutines under Go's race detector; distinct_nontrivial = schedules executed", b, b2)
+			return fmt.Sprintf("the library is rebuilt with its sync import replaced by a cooperative-scheduler shim and with generated Access hooks (before every statement touching a package-level variable, at entry of every pointer-receiver method, classified read/write); 18 scenarios of three threads (one of two) that collide on every piece of shared state (Register ∥ Codec+decode ×2; RegisterSchema ∥ SchemaForType ∥ NewEncoderFor; Register(T1) ∥ Register(T2) ∥ build with a final both-in-effect check; shared-codec decode ×3 with pooled banks, closing at once or keeping banks open; shared-codec encode ×3 incl. map iteration; ReadFile ×2 + a third thread closing banks handed over through a channel; timestamp decode ×3 with the same / different / X,Y,Y not-yet-cached zone offsets; a registered builder that re-enters the codec builder ∥ Register of another type (RWMutex modelled with writer preference: readers queue behind an announced writer); ReadFile abandoned from a callback that closed its bank, then shared-codec decode ×2 (two threads); three independent encoders of one compression codec writing two blocks each (deflate, snappy); null.RegisterCodecs followed at once by use of the types, from empty registries; logical dates decoded concurrently through one codec; timestamps with twelve zone offsets where one thread overwrites its input buffer; a mix) are explored over ALL schedules with at most %d preemptions where every Lock/Unlock/RLock/RUnlock/Pool.Get/Pool.Put/channel operation is a scheduling point and every Pool.Get answer a choice, and again with every Access hook as an additional scheduling point with at most %d preemptions, and — for the construction scenarios, the shared-codec decode and the X,Y,Y zone scenario (all scenarios in thorough) — once more with EVERY statement of the library a scheduling point (generated statement hooks, one preemption), so that publish-before-initialise and check-then-act windows inside unsynchronised code are interleaved; sync.Once and sync.Map are shimmed as well (scheduling points, happens-before edges, state dropped between executions), package-level variables are restored before every execution to their values after package initialisation; per schedule: vector-clock happens-before check of all hooked accesses (lock release→acquire, pool put→get, channel send→recv edges), deadlock detection, and comparison of every thread's observation with what a sequential order allows; auxiliary: the same bodies free-running on 16 goroutines under Go's race detector; distinct_nontrivial = schedules executed", b, b2)
 		},
 		Assumptions: []string{
 			"sequentially consistent interleavings at the granularity of synchronisation operations (and of instrumented accesses in the second pass); weak-memory effects are outside the model",
